@@ -100,6 +100,8 @@ class Panel(JupyterMixin):
             title_text.end = ""
             title_text.plain = title_text.plain.replace("\n", " ")
             title_text.no_wrap = True
+            # placed by title_align; the text's own justify would pad it to the console width
+            title_text.justify = "default"
             title_text.expand_tabs()
             title_text.pad(1)
             return title_text
